@@ -880,22 +880,28 @@ fn judge(case: &Case, tgt: Tgt, pipe: Option<&XPipe>, out: &rssl::CompiledPipeli
     // ---- 3. stages
     let mut s_parts = Vec::new();
     let mut f_parts = Vec::new();
-    let want_stages: Vec<&XFn> = pipe.map(|p| p.stages.iter().map(|k| &case.entries[*k]).collect()).unwrap_or_default();
+    // (stage kind as written in the property, the function the name denotes where the block stands)
+    let pipe_index = pipe.and_then(|p| case.pipes.iter().position(|q| std::ptr::eq(q, p)));
+    let want_stages: Vec<(Option<String>, &XFn)> = match (pipe, pipe_index) {
+        (Some(p), Some(pi)) => p.stages.iter().map(|k| (case.entries[*k].stage.clone(), case.stage_xfn(case.stage_fn(pi, *k)))).collect(),
+        (Some(p), None) => p.stages.iter().map(|k| (case.entries[*k].stage.clone(), &case.entries[*k])).collect(),
+        _ => Vec::new(),
+    };
     if out.stages.len() != want_stages.len() {
         fails.push(Fail { class: "stage-count", detail: format!("{} stages reported for {} stage properties", out.stages.len(), want_stages.len()) });
     }
     for (k, st) in out.stages.iter().enumerate() {
         let kind = format!("{:?}", st.stage);
         s_parts.push(format!("{}:{}:{}", kind, st.entry_point, threads_str(st.thread_group_size)));
-        if let Some(w) = want_stages.get(k) {
-            if w.stage.as_deref() != Some(kind.as_str()) || w.threads != st.thread_group_size {
-                fails.push(Fail { class: "stage-record", detail: format!("stage {} reported as {} {:?}, declared {:?} {:?}", k, kind, st.thread_group_size, w.stage, w.threads) });
+        if let Some((wstage, w)) = want_stages.get(k) {
+            if wstage.as_deref() != Some(kind.as_str()) || w.threads != st.thread_group_size {
+                fails.push(Fail { class: "stage-record", detail: format!("stage {} reported as {} {:?}, declared {:?} {:?}", k, kind, st.thread_group_size, wstage, w.threads) });
             }
         }
         let found: Vec<&SrcFunc> = emitted.funcs.iter().filter(|f| f.name == st.entry_point && f.has_body).collect();
         if found.len() != 1 {
             f_parts.push(format!("!missing({})", st.entry_point));
-            let src_name = want_stages.get(k).map(|w| w.name.as_str()).unwrap_or("");
+            let src_name = want_stages.get(k).map(|w| w.1.name.as_str()).unwrap_or("");
             fails.push(Fail {
                 class: if found.is_empty() && !msl && src_name == st.entry_point { "entry-renamed" } else { "entry-not-defined" },
                 detail: format!("stage {} reports entry point `{}` but the emitted source defines {} function(s) of that name (functions: {})",
@@ -1160,6 +1166,7 @@ fn run_case(case: &Case, tgt: Tgt, mode: &Mode, out: &mut Out, hist: &mut Hist) 
     }
     for p in &case.pipes {
         if p.stages.len() == 2 && case.entries[p.stages[0]].stage.as_deref() == Some("Pixel") { hist.add("variant=stages-reversed"); }
+        if p.before { hist.add("variant=pipeline-before-entry-points"); }
     }
     match compile_raw(&src, tgt, mode) {
         Raw::Err(e) => {
@@ -1202,7 +1209,8 @@ fn run_case(case: &Case, tgt: Tgt, mode: &Mode, out: &mut Out, hist: &mut Hist) 
         Raw::Ok(ps) => {
             hist.add("outcome=ok");
             let pipes: Vec<Option<&XPipe>> = match mode {
-                Mode::All => case.pipes.iter().map(Some).collect(),
+                // compile() returns the pipelines in the order the file declares them (a block marked `b` comes first)
+                Mode::All => case.file_order().iter().filter_map(|r| if let Root::Pipe(i) = r { Some(Some(&case.pipes[*i])) } else { None }).collect(),
                 Mode::Named(n) => vec![case.pipes.iter().find(|p| &p.name == n)],
                 Mode::NoPipeline => vec![None],
             };
@@ -1527,41 +1535,125 @@ fn mutate(case: &mut Case, rng: &mut Rng, hist: &mut Hist) {
         case.pipes[1].name = n;
         hist.add("variant=pipeline-name-prefix");
     }
-    // files the front end refuses (the model predicts the error class; nothing to judge)
-    if !case.pipes.is_empty() && rng.chance(1, 12) {
-        let k = rng.below(case.pipes.len() as u64) as usize;
+    // the front end looks at a function's attributes only where it is defined: a forward declaration may carry a second
+    // numthreads attribute (accepted file; the report must follow the definition)
+    for e in case.entries.iter_mut() {
+        if e.fd && e.threads.is_some() && e.nt == 0 && rng.chance(1, 4) {
+            e.nt = 4;
+            hist.add("variant=second-numthreads-on-declaration-only");
+        }
+    }
+    // an overload of an entry point defined after every Pipeline block (the entry lookup sees the registry of its moment)
+    if !case.entries.is_empty() && rng.chance(1, 16) {
+        let k = rng.below(case.entries.len() as u64) as usize;
+        case.entries[k].lo = true;
+        hist.add("variant=late-overload-of-entry");
+    }
+    // files the front end refuses (the model predicts the error class; nothing to judge): one error, or -- where the
+    // order in which the front end meets them decides the answer -- two or three independent ones, at random places of
+    // the file, in both layouts, with and without forward declarations
+    if !case.pipes.is_empty() && rng.chance(1, 6) {
+        let n_err = if rng.chance(1, 3) { 1 } else { 2 + rng.below(2) as usize };
         hist.add("variant=front-end-error");
-        match rng.below(7) {
-            0 if case.pipes.len() >= 2 => {
-                let n = case.pipes[0].name.clone();
-                case.pipes[k.max(1)].name = n;
+        hist.add(&format!("front-end-errors={}", n_err));
+        if n_err > 1 && rng.chance(1, 2) {
+            case.layout = 1 - case.layout.min(1);
+        }
+        let mut kinds: Vec<String> = Vec::new();
+        for _ in 0..n_err {
+            let k = rng.below(case.pipes.len() as u64) as usize;
+            let kind = inject_front_error(case, rng, k);
+            if !kind.is_empty() {
+                hist.add(&format!("front-end-error-kind={}", kind));
+                kinds.push(kind.to_string());
             }
-            1 if !case.helpers.is_empty() => {
-                let e = case.pipes[k].stages[0];
-                case.entries[e].name = case.helpers[0].name.clone();
-            }
-            2 => {
-                // a compute stage next to another stage
-                if let Some(c) = (0..case.entries.len()).find(|e| case.entries[*e].stage.as_deref() == Some("Compute")) {
-                    let first = case.pipes[k].stages[0];
-                    if case.entries[first].stage.as_deref() != Some("Compute") || case.pipes[k].stages.len() > 1 {
-                        case.pipes[k].stages.push(c);
-                    } else if let Some(o) = (0..case.entries.len()).find(|e| matches!(case.entries[*e].stage.as_deref(), Some("Pixel") | Some("Vertex"))) {
-                        case.pipes[k].stages.push(o);
-                    }
+        }
+        if kinds.len() >= 2 {
+            hist.add("variant=several-front-end-errors");
+        }
+    }
+}
+
+/// make the file fail in the front end at pipeline `k` (or at a function / resource it picks); returns what was done
+fn inject_front_error(case: &mut Case, rng: &mut Rng, k: usize) -> &'static str {
+    match rng.below(10) {
+        0 if case.pipes.len() >= 2 => {
+            // two blocks of one name: the later one is refused
+            let j = if k == 0 { 1 } else { rng.below(k as u64) as usize };
+            let n = case.pipes[j.min(k)].name.clone();
+            case.pipes[j.max(k)].name = n;
+            "pipeline-name-twice"
+        }
+        1 if !case.helpers.is_empty() && !case.pipes[k].stages.is_empty() => {
+            // the entry point shares its name with a helper
+            let e = case.pipes[k].stages[0];
+            case.entries[e].name = case.helpers[0].name.clone();
+            "entry-name-of-a-helper"
+        }
+        2 if !case.pipes[k].stages.is_empty() => {
+            // a compute stage next to another stage
+            let first = case.pipes[k].stages[0];
+            if let Some(c) = (0..case.entries.len()).find(|e| case.entries[*e].stage.as_deref() == Some("Compute")) {
+                if case.entries[first].stage.as_deref() != Some("Compute") || case.pipes[k].stages.len() > 1 {
+                    case.pipes[k].stages.push(c);
+                    return "compute-next-to-graphics";
+                } else if let Some(o) = (0..case.entries.len()).find(|e| matches!(case.entries[*e].stage.as_deref(), Some("Pixel") | Some("Vertex"))) {
+                    case.pipes[k].stages.push(o);
+                    return "compute-next-to-graphics";
                 }
             }
-            3 => {
-                let first = case.pipes[k].stages[0];
-                case.pipes[k].stages.push(first);
+            ""
+        }
+        3 if !case.pipes[k].stages.is_empty() => {
+            let first = case.pipes[k].stages[0];
+            case.pipes[k].stages.push(first);
+            "stage-property-twice"
+        }
+        4 => {
+            // graphics state: an error on a compute pipeline only
+            case.pipes[k].gstate = 1 + rng.below(500) as u32;
+            "graphics-state"
+        }
+        5 => {
+            case.pipes[k].stages.clear();
+            "no-entry-point"
+        }
+        6 => {
+            if let Some(r) = case.res.iter_mut().find(|r| r.ss) {
+                r.vk_index = Some(3);
+                "static-sampler-index"
+            } else {
+                ""
             }
-            4 => case.pipes[k].gstate = 1 + rng.below(500) as u32,
-            5 => case.pipes[k].stages.clear(),
-            _ => {
-                if let Some(r) = case.res.iter_mut().find(|r| r.ss) {
-                    r.vk_index = Some(3);
+        }
+        7 | 8 => {
+            // a second numthreads attribute on a definition (and on the forward declaration, where it does not count):
+            // an entry point of this pipeline, or any
+            let cands: Vec<usize> = if !case.pipes[k].stages.is_empty() && rng.chance(2, 3) {
+                case.pipes[k].stages.clone()
+            } else {
+                (0..case.entries.len()).collect()
+            };
+            let cands: Vec<usize> = cands.into_iter().filter(|e| case.entries[*e].threads.is_some()).collect();
+            if cands.is_empty() {
+                return "";
+            }
+            let e = *rng.pick(&cands);
+            case.entries[e].nt = 3;
+            if rng.chance(1, 2) {
+                case.entries[e].fd = true;
+            }
+            "second-numthreads"
+        }
+        _ => {
+            // the block comes before the definitions of its entry points (unknown, or declared only)
+            case.pipes[k].before = true;
+            if let Some(e) = case.pipes[k].stages.first().copied() {
+                if rng.chance(1, 2) {
+                    case.entries[e].fd = true;
                 }
             }
+            "block-before-entry-points"
         }
     }
 }
@@ -1660,7 +1752,7 @@ pub fn run(args: &Args, out: &mut Out) {
                         res: vec![XRes::plain("g_t", "Texture2D")],
                         helpers: vec![],
                         entries: vec![XFn { name: "cs_0".into(), stage: Some("Compute".into()), uses: vec![(0, ' ')], threads: Some((8, 4, 1)), ..Default::default() }],
-                        pipes: vec![XPipe { name: "P0".into(), dflt: None, stages: vec![0], gstate: 0, dexpr: false }],
+                        pipes: vec![XPipe { name: "P0".into(), dflt: None, stages: vec![0], gstate: 0, dexpr: false, before: false }],
                     };
                     if role == 0 {
                         case.entries[0].name = name.clone();
